@@ -8,6 +8,7 @@ import (
 	"math"
 	"math/big"
 	"strconv"
+	"strings"
 
 	"github.com/ohler55/slip"
 	"golang.org/x/text/cases"
@@ -1158,7 +1159,6 @@ func (c *control) dirR(colon, at bool, params []any) {
 	var (
 		digits []byte
 		words  []string
-		sep    string
 	)
 	arg := c.args[c.argPos]
 	c.argPos++
@@ -1189,84 +1189,78 @@ func (c *control) dirR(colon, at bool, params []any) {
 			r++
 		}
 	} else {
-		// prints arg as a cardinal English number: four.
-		neg := false
-		if digits[0] == '-' {
-			neg = true
-			digits = digits[1:]
-		}
-		if len(digits) == 1 && digits[0] == '0' {
-			if colon {
-				c.out = append(c.out, "zeroth"...)
-			} else {
-				c.out = append(c.out, "zero"...)
-			}
-			return
-		}
-		one := cardinalOne
-		teen := cardinalTeen
-		if colon {
-			// prints arg as an ordinal English number: fourth.
-			one = ordinalOne
-			teen = ordinalTeen
-		}
-		i := len(digits) - 1
-		for _, trip := range cardinalTriples {
-			if 0 < len(trip) {
-				words = append(words, trip)
-			}
-			zero := true
-			d := digits[i]
-			i--
-			if i < 0 {
-				words = append(words, one[d-'0'])
-				break
-			}
-			d10 := digits[i]
-			i--
-			switch d10 {
-			case '0':
-				if d != '0' {
-					zero = false
-					words = append(words, one[d-'0'])
-				}
-			case '1':
-				zero = false
-				words = append(words, teen[d-'0'])
-			default:
-				zero = false
-				words = append(words, one[d-'0'])
-				words = append(words, cardinalTen[d10-'0'-2])
-			}
-			one = cardinalOne
-			teen = cardinalTeen
-			if 0 <= i {
-				d := digits[i]
-				i--
-				if d != '0' {
-					zero = false
-					words = append(words, "hundred")
-					words = append(words, one[d-'0'])
-				}
-			}
-			if zero {
-				words = words[:len(words)-1]
-			}
-			if i < 0 {
-				break
-			}
-		}
-		if neg {
-			words = append(words, "negative")
-		}
-		sep = " "
+		// prints arg as a cardinal (four) or ordinal (fourth) English number.
+		c.out = append(c.out, c.englishNumber(digits, colon)...)
+		return
 	}
 	for i := len(words) - 1; 0 <= i; i-- {
 		c.out = append(c.out, words[i]...)
-		if 0 < i {
-			c.out = append(c.out, sep...)
+	}
+}
+
+// englishNumber spells the decimal digits (with an optional leading minus) as
+// a cardinal or an ordinal number with the words separated by a space.
+func (c *control) englishNumber(digits []byte, ordinal bool) string {
+	var words []string
+	if digits[0] == '-' {
+		words = append(words, "negative")
+		digits = digits[1:]
+	}
+	if 3*len(cardinalTriples) < len(digits) {
+		slip.ErrorPanic(c.scope, 0, "number too large to print using the Radix directive at %d of %q", c.pos, c.str)
+	}
+	if pad := (3 - len(digits)%3) % 3; 0 < pad {
+		digits = append(bytes.Repeat([]byte{'0'}, pad), digits...)
+	}
+	last := "zero"
+	for i := 0; i < len(digits); i += 3 {
+		h, t, o := digits[i]-'0', digits[i+1]-'0', digits[i+2]-'0'
+		if h == 0 && t == 0 && o == 0 {
+			continue
+		}
+		if 0 < h {
+			words = append(words, cardinalOne[h], "hundred")
+		}
+		switch {
+		case t == 1:
+			words = append(words, cardinalTeen[o])
+		case 1 < t && 0 < o:
+			words = append(words, cardinalTen[t-2], cardinalOne[o])
+		case 1 < t:
+			words = append(words, cardinalTen[t-2])
+		case 0 < o:
+			words = append(words, cardinalOne[o])
+		}
+		if trip := cardinalTriples[(len(digits)-i)/3-1]; 0 < len(trip) {
+			words = append(words, trip)
+		}
+		last = words[len(words)-1]
+	}
+	if last == "zero" {
+		words = append(words, last)
+	}
+	if ordinal {
+		words[len(words)-1] = ordinalWord(last)
+	}
+	return strings.Join(words, " ")
+}
+
+// ordinalWord converts the last word of a cardinal number to its ordinal form.
+func ordinalWord(word string) string {
+	for i, w := range cardinalOne {
+		if w == word {
+			return ordinalOne[i]
 		}
 	}
+	for i, w := range cardinalTeen {
+		if w == word {
+			return ordinalTeen[i]
+		}
+	}
+	if strings.HasSuffix(word, "y") {
+		return word[:len(word)-1] + "ieth"
+	}
+	return word + "th"
 }
 
 func (c *control) dirS(colon, at bool, params []any) {
